@@ -208,7 +208,9 @@ def judge(ctx, case):
         if dropped:
             ctx.hit("margin-dropped")
             return
-    ctx.case(key, nontrivial=True, sample=None)
+    ctx.case(key, nontrivial=True, sample=dict(mesh=case.get("mesh", case.get("file")), supplied_edge_tables=bool(case.get("supplied")),
+                                               history=case.get("history"), selection=sel, via=case.get("via"), data=case.get("data"),
+                                               requests_on_subset=case.get("order")) if len(case.get("table", [])) <= 8 else None)
 
     def fail(sig, what, impl=None, model=None, clauses=()):
         ctx.fail(f"C09/{sig}", what, case, impl, model, list(clauses))
@@ -315,6 +317,15 @@ def judge(ctx, case):
     if any(f < 0 or f >= len(t) for f in idx) or len(set(idx)) != len(idx):
         ctx.hit("outside-quantifier(index)")
         return
+
+    # ---- the user's own requests on the subset, in the case's order (histories after slicing) ----
+    for attr in case.get("order", []):
+        try:
+            getattr(sub, attr)
+        except Exception as e:
+            fail(f"derived={attr}/raises={type(e).__name__}/{src_kind}",
+                 f"{attr} of the subset raises {type(e).__name__}: {str(e)[:160]}", dict(history=hist_done))
+            return
 
     # ---- the subset's own tables ----
     obs = dict(nodeIdx=rec_n, faceIdx=rec_f, edgeIdx=rec_e)
@@ -499,6 +510,9 @@ def random_selection(rng, m, g, n_edge):
         if abs(la) >= 90:
             la = 0.0
         return dict(kind="lat", lat=la, at_node=True)
+    lo, hi = float(np.min(g.node_lat.values)), float(np.max(g.node_lat.values))
+    if rng.random() < 0.8 and hi - lo > 1e-3:  # inside the mesh's own latitude range
+        return dict(kind="lat", lat=float(max(-89.0, min(89.0, rng.uniform(lo, hi)))))
     return dict(kind="lat", lat=float(rng.uniform(-89, 89)))
 
 
@@ -536,21 +550,6 @@ def random_case(ctx, m, ux, supplied=None, thorough_geo=False):
     else:
         case["via"] = "grid"
     return case
-
-
-def fixed_cases(ctx, ux):
-    """the defects found while building this check, as regression inputs (also in corpus/C09)"""
-    m = meshes.cube_sphere(2)
-    base = dict(mesh=m.describe(), table=m.rows(), lon=[float(x) for x in m.lon], lat=[float(x) for x in m.lat],
-                z=[float(x) for x in m.xyz[:, 2]], via="grid", order=[], geo=["edge_lon", "face_lon"])
-    yield dict(base, history=[], sel=dict(kind="face", index=[3, 1, 7], form="list"))
-    perm = list(range(m.n_face))
-    ctx.rng.shuffle(perm)
-    yield dict(base, history=["face_edge_connectivity"], sel=dict(kind="face", index=perm, form="array"))
-    p = meshes.patch(4, 3)
-    yield dict(mesh=p.describe(), table=p.rows(), lon=[float(x) for x in p.lon], lat=[float(x) for x in p.lat],
-               z=[float(x) for x in p.xyz[:, 2]], via="grid", order=[], geo=[], history=["hole_edge_indices"],
-               sel=dict(kind="face", index=[5, 6, 1], form="list"))
 
 
 def mpas_cases(ctx):
@@ -626,13 +625,11 @@ def run(ctx):
     ]
     for c in corpus_cases(ctx):
         judge(ctx, c)
-    for c in fixed_cases(ctx, ux):
-        judge(ctx, c)
     for rep in range(ctx.n(1, 5)):
         for m in meshes.zoo(ctx.rng, big=False):
             if m.n_face > 130:
                 continue
-            for _ in range(ctx.n(4, 6)):
+            for _ in range(ctx.n(7, 9)):
                 judge(ctx, random_case(ctx, m, ux, thorough_geo=ctx.thorough and ctx.rng.random() < 0.1))
     for c in mpas_cases(ctx):
         judge(ctx, c)
